@@ -20,7 +20,7 @@ RULE = (
     "with >= 2 calls on the same (position,state) separated by other calls, and a jit and a vmap call; "
     "distinct by (program, history) hash"
 )
-REQUIRED = ["interface_construction_leaves_user_model", "put_get_law_with_colliding_names", "realistic_log_prob_vs_oracle", "result_equals_spec_evaluation", "result_equals_direct_assignment", "history_independent",
+REQUIRED = ["edge_inputs_equal_direct_assignment", "interface_construction_leaves_user_model", "put_get_law_with_colliding_names", "realistic_log_prob_vs_oracle", "result_equals_spec_evaluation", "result_equals_direct_assignment", "history_independent",
             "input_state_unchanged", "user_model_unchanged", "extract_returns_position",
             "log_prob_equals_model", "jit_equals_eager", "vmap_equals_eager", "simple_interface_laws"]
 ANCHORS = ["goose/interface.py:LieselInterface.update_state", "goose/interface.py:LieselInterface.extract_position",
@@ -354,6 +354,70 @@ def case_collision(case, res):
     res.sample = {"kind": "name-collision", "keys": ["tau", "tau_value", "tau_value_value"]}
 
 
+def case_edge(case, res):
+    """Edge inputs: (i) positions outside a distribution's support (the model's log-probability is NaN or
+    -inf: the interface must report exactly what the model reports); (ii) a variable initialised with an
+    integer array receiving a float position (must be stored as given, as direct assignment does)."""
+    import jax
+    import jax.numpy as jnp
+    import liesel.goose as gs
+    import liesel.model as lsl
+    import tensorflow_probability.substrates.jax.distributions as tfd
+
+    rng = rng_for(case["seed"], "c03-edge", case["idx"])
+
+    def build():
+        scale = lsl.param(jnp.asarray(1.0, jnp.float32), lsl.Dist(tfd.Gamma, concentration=2.0, rate=1.0), name="scale")
+        n_ = lsl.Var(jnp.asarray([1, 2, 3]), name="counts")                     # integer-initialised
+        k_ = lsl.Var(3, name="k_int")                                           # Python int
+        mu = lsl.Var(lsl.Calc(lambda c, k: jnp.sum(c) * 0.1 + k, n_, k_), name="mu")
+        y = lsl.obs(jnp.asarray([0.3, -0.2, 1.1], jnp.float32), lsl.Dist(tfd.Normal, loc=mu, scale=scale), name="y")
+        return lsl.GraphBuilder().add(y).build_model()
+
+    A, B = build(), build()
+    iface = gs.LieselInterface(A)
+    S = A.state
+    B.auto_update = False
+    for step in range(case["n_calls"]):
+        kind = str(rng.choice(["nan_scale", "float_into_int", "float_into_pyint", "ok"]))
+        if kind == "nan_scale":
+            pos = {"scale": jnp.asarray(float(rng.choice([-1.0, -0.5, 0.0])), jnp.float32)}
+        elif kind == "float_into_int":
+            pos = {"counts": jnp.asarray(np.round(rng.normal(2, 1, 3), 2), jnp.float32)}
+        elif kind == "float_into_pyint":
+            pos = {"k_int": jnp.asarray(float(np.round(rng.normal(2, 1), 2)), jnp.float32)}
+        else:
+            pos = {"scale": jnp.asarray(float(np.round(np.exp(rng.normal(0, 0.5)), 3)), jnp.float32)}
+        mode = ["eager", "jit"][step % 2]
+        out = (jax.jit(iface.update_state) if mode == "jit" else iface.update_state)(pos, S)
+        # direct path on the twin
+        B.state = S
+        for k, v in pos.items():
+            B.vars[k].value = v
+        B.update()
+        res.mon("edge_inputs_equal_direct_assignment")
+        lp_i, lp_m = np.asarray(iface.log_prob(out)), np.asarray(B.log_prob)
+        if not np.array_equal(lp_i.astype(np.float64), lp_m.astype(np.float64), equal_nan=True) and \
+                not np.allclose(lp_i, lp_m, rtol=1e-6, atol=1e-6, equal_nan=True):
+            res.violation("log-prob", f"{mode} {kind}: interface.log_prob = {lp_i} but the model's log-probability at those values is {lp_m}",
+                          {"kind": kind, "pos": {k: np.asarray(v).tolist() for k, v in pos.items()}})
+            break
+        for k, v in pos.items():
+            got = np.asarray(iface.extract_position([k], out)[k])
+            if got.shape != np.shape(v) or not np.allclose(got.astype(np.float64), np.asarray(v, np.float64), rtol=0, atol=0):
+                res.violation("extract-position", f"{mode} {kind}: put {np.asarray(v).tolist()} under {k!r}, extract_position returned "
+                              f"{got.tolist()} (dtype {got.dtype})", {"kind": kind})
+                break
+        d_i, d_m = np.asarray(out["mu_value"].value, np.float64), np.asarray(B.vars["mu"].value, np.float64)
+        if not np.allclose(d_i, d_m, rtol=1e-6, atol=1e-6, equal_nan=True):
+            res.violation("differs-from-direct-assignment", f"{mode} {kind}: derived mu = {d_i} vs direct assignment {d_m}", {"kind": kind})
+            break
+        if kind == "ok":
+            S = out
+    res.nontriv(("edge", case["idx"]))
+    res.sample = {"kind": "edge inputs (NaN log-prob, float into int-initialised variable)"}
+
+
 def case_simple(case, res):
     """Dict / Dataclass / NamedTuple interfaces: put/get, non-mutation, log-prob, history independence."""
     import copy
@@ -522,7 +586,9 @@ def run_case(case):
     res = CaseResult(case)
     res.evals = 1
     try:
-        if case["kind"] == "collision":
+        if case["kind"] == "edge":
+            case_edge(case, res)
+        elif case["kind"] == "collision":
             case_collision(case, res)
         elif case["kind"] == "realistic":
             case_realistic(case, res)
@@ -544,6 +610,8 @@ def gen_cases(tier, seed):
              for i in range(200 if q else 2000)]
     for i in range(40 if q else 600):
         cases.append({"kind": "realistic", "idx": 50000 + i, "seed": seed, "n_calls": 12 if q else 25, "cost": 4})
+    for i in range(6 if q else 60):
+        cases.append({"kind": "edge", "idx": 80000 + i, "seed": seed, "n_calls": 16, "cost": 2})
     for i in range(6 if q else 40):
         cases.append({"kind": "collision", "idx": 70000 + i, "seed": seed, "n_calls": 15, "cost": 1})
     for i in range(30 if q else 300):
